@@ -26,5 +26,13 @@ for short, mod in MODS.items():
     for n, f in vars(M).items():
         if isinstance(f, types.FunctionType) and f.__module__ == mod and not n.startswith('_'):
             out[short + '.' + n] = [[k, enc(v.default)] for k, v in inspect.signature(f).parameters.items()]
+# the TT class: methods as 'TT.<name>' (without self), module-level constructors / helpers as 'tt.<name>'
+TTM = importlib.import_module('scikit_tt.tensor_train')
+for n, f in vars(TTM.TT).items():
+    if isinstance(f, types.FunctionType) and not n.startswith('_'):
+        out['TT.' + n] = [[k, enc(v.default)] for k, v in list(inspect.signature(f).parameters.items())[1:]]
+for n, f in vars(TTM).items():
+    if isinstance(f, types.FunctionType) and f.__module__ == 'scikit_tt.tensor_train' and not n.startswith('_'):
+        out['tt.' + n] = [[k, enc(v.default)] for k, v in inspect.signature(f).parameters.items()]
 json.dump(out, open('/verif/vt/signatures.json', 'w'), indent=0, sort_keys=True)
 print(len(out), 'signatures')
